@@ -64,7 +64,7 @@ func TestVerifC02(t *testing.T) {
 	for _, c := range model.InteractionDocs() {
 		check(c)
 	}
-	n := r.Pick(40000, 1000000)
+	n := r.Pick(40000, 3000000)
 	g := &model.Gen{R: r.Rand("c02", "random"), Hazard: 0.12}
 	for i := 0; i < n; i++ {
 		d := g.Doc()
@@ -77,7 +77,7 @@ func TestVerifC02(t *testing.T) {
 	}
 
 	// Arbitrary bytes and mutated valid documents: parsing never panics.
-	m := r.Pick(5000, 500000)
+	m := r.Pick(5000, 1500000)
 	fr := r.Rand("c02", "fuzz")
 	gv := &model.Gen{R: r.Rand("c02", "fuzzbase"), Hazard: 0.05}
 	for i := 0; i < m; i++ {
